@@ -597,6 +597,18 @@ Proof. reflexivity. Qed.
 Lemma cache_dst_eq : path_join P0 (path_join s_dotsignac s_cache_new) = path_join (path_join P0 s_dotsignac) s_cache_new.
 Proof. reflexivity. Qed.
 
+(* os.path.normpath leaves a single clean component as it is (the comparison of move_workspace) *)
+Lemma normpath_clean : forall w, cleanb w = true -> normpath w = w.
+Proof.
+  intros w H. destruct (cleanb_inv w H) as [Hs [E1 [E2 E3]]].
+  destruct (first_char_clean w H) as [x [r [Ew Hx]]].
+  unfold normpath. rewrite Ew. rewrite <- Ew.
+  assert (I0 : initial_slashes w = 0%nat) by (rewrite Ew; simpl; rewrite Hx; reflexivity).
+  rewrite I0. simpl Nat.eqb. simpl negb. simpl repeat. simpl app.
+  rewrite (split_sl_slashfree w Hs). unfold norm_comps. simpl fold_left.
+  unfold norm_step. rewrite E1, E2, E3. simpl. rewrite Ew. reflexivity.
+Qed.
+
 (* a name the pre-state maps to something of a different kind than w's directory is not w *)
 Lemma neq_by_lookup : forall (es : list (str * node)) w k ws,
   alookup w es = Some (Dir ws) -> (alookup k es = None \/ exists d, alookup k es = Some (File d)) -> w <> k.
@@ -643,14 +655,14 @@ Section Refine.
     destruct (mp_ws es c name PRE) as [W|[W|[w [W [Hw [Nw [Lws [[ws Lw]|[Lw Nsp]]]]]]]]]; rewrite W.
     - reflexivity.
     - reflexivity.
-    - rewrite (neq_eqb w s_workspace Nw), Lw.
+    - rewrite (normpath_clean w Hw), (neq_eqb w s_workspace Nw), Lw.
       assert (NL : nolink (alookup s_workspace es)) by (rewrite Lws; exact I).
       rewrite (exists_child es s_workspace clean_workspace NL), Lws.
       assert (NLw : nolink (alookup w es)) by (rewrite Lw; exact I).
       rewrite (exists_child es w Hw NLw), Lw.
       apply replace_child; auto; exact clean_workspace.
     - (* the configured directory was never created: nothing to move (repaired F17) *)
-      rewrite (neq_eqb w s_workspace Nw), Lw.
+      rewrite (normpath_clean w Hw), (neq_eqb w s_workspace Nw), Lw.
       assert (NL : nolink (alookup s_workspace es)) by (rewrite Lws; exact I).
       rewrite (exists_child es s_workspace clean_workspace NL), Lws.
       assert (NLw : nolink (alookup w es)) by (rewrite Lw; exact I).
@@ -1316,7 +1328,7 @@ Lemma step_ws_fail : forall es c name w, fail_pre es c name w ->
   exists e, move_workspace CWD0 P0 c (world es) = (Err e, world es).
 Proof.
   intros es c name w F. unfold move_workspace. rewrite (fp_w es c name w F).
-  rewrite (neq_eqb w s_workspace (fp_custom es c name w F)).
+  rewrite (normpath_clean w (fp_clean es c name w F)), (neq_eqb w s_workspace (fp_custom es c name w F)).
   destruct (fp_why es c name w F) as [x [Lx NL]].
   rewrite (exists_child es s_workspace clean_workspace) by (rewrite Lx; exact NL). rewrite Lx. eauto.
 Qed.
